@@ -14,7 +14,7 @@ use serde::{Deserialize, Serialize};
 pub fn def() -> PropDef {
     PropDef {
         id: "C05",
-        rule: "generated histories (1..12 ops) on one encoder or decoder of every family x engine: reset to other counts / shard size / rate, complete rounds (result read or dropped unread), abandoned partial rounds, failing adds, failing resets, premature encode/decode, into_parts -> new(Some(work)) into another family and engine; half of the histories with the poison hook armed (every byte of working memory that survives a resize is replaced by seeded noise). oracle: at every encode/decode the calls made since the last reset / dropped result are replayed on a freshly constructed object of the current configuration; every call result and the output bytes must be identical. part long_life: one tiny encoder or decoder lives through 2..4 epochs of 0..3 / ~256 / ~512 / ~65536 cheap complete rounds, each followed by a real round compared with a fresh object (and with the originals), without any explicit reset (wrapping per-round counters and stamps). part big_history: the same oracle on few, long shards (working spaces 1 MiB .. 256 MiB quick / 2 GiB thorough, log-uniform) with several rounds per object. non-trivial: >=2 completed rounds on the one object (the classes report how many of them had a configuration change, recycle, failed call or poison in between); distinct by full history",
+        rule: "generated histories (1..12 ops) on one encoder or decoder of every family x engine: reset to other counts / shard size / rate, complete rounds (result read or dropped unread), abandoned partial rounds, failing adds, failing resets, premature encode/decode, into_parts -> new(Some(work)) into another family and engine; half of the histories with the poison hook armed (every byte of working memory that survives a resize is replaced by seeded noise). oracle: at every encode/decode the calls made since the last reset / dropped result are replayed on a freshly constructed object of the current configuration; every call result and the output bytes must be identical. part long_life: one tiny encoder or decoder lives through 2..4 epochs of 0..3 / ~256 / ~512 / ~65536 cheap complete rounds, each followed by a real round compared with a fresh object (and with the originals), without any explicit reset (wrapping per-round counters and stamps). part reset_streaks: one object (first built for a larger configuration) goes through 1..4 streaks of 0..300 consecutive resets that cycle through 1..3 small configurations (with a cheap round after every reset, every few, or never), each streak followed by a real round compared with a fresh object and the originals (amortised shrinking / re-sizing decisions that count consecutive resets). part big_history: the same oracle on few, long shards (working spaces 1 MiB .. 256 MiB quick / 2 GiB thorough, log-uniform) with several rounds per object. non-trivial: >=2 completed rounds on the one object (the classes report how many of them had a configuration change, recycle, failed call or poison in between); distinct by full history",
         assumptions: &[
             "an implementation does not carry knowledge about the *contents* of working memory across a resize (poison only overwrites the retained prefix, where real stale bytes live)",
             "shard contents are arbitrary bytes: the decoder is compared with a fresh decoder on the same inputs, consistency of the shards is not needed for this property",
@@ -36,6 +36,7 @@ fn parts() -> Vec<Box<dyn PartDyn>> {
         Box::new(GenPart { name: "history", quick: 20_000, thorough: 200_000, shrink_iters: 1500, strat: strategy, check }),
         Box::new(GenPart { name: "big_history", quick: 14, thorough: 400, shrink_iters: 30, strat: big_strategy, check: check_big }),
         Box::new(GenPart { name: "long_life", quick: 400, thorough: 1_500, shrink_iters: 60, strat: long_strategy, check: check_long }),
+        Box::new(GenPart { name: "reset_streaks", quick: 6_000, thorough: 150_000, shrink_iters: 200, strat: streak_strategy, check: check_streak }),
     ]
 }
 
@@ -329,6 +330,144 @@ fn check_long(c: &LongCase, st: &mut Stats) -> CheckResult {
     st.classf("rounds_log2", 64 - rounds.leading_zeros());
     if rounds >= 256 {
         st.nontrivial_case("long_life", c);
+    }
+    Ok(())
+}
+
+// ----------------------------------------------------------------------
+// reset streaks: many consecutive resets (no round, or only cheap rounds, in between), cycling through a few
+// small configurations on an object that was first built for a larger one; then a real round.
+// (amortised "give memory back after N small resets" decisions, counters of consecutive resets)
+
+#[derive(Clone, Debug, PartialEq, Eq, Hash, Serialize, Deserialize)]
+pub struct Streak {
+    pub n: u32,
+    /// configurations the resets cycle through; the LAST reset of the streak uses the last entry
+    pub cfgs: Vec<(usize, usize, usize)>,
+    /// 0 = no rounds inside the streak, x = a cheap complete round after every x-th reset
+    pub round_every: u8,
+    pub recv: gen::RecvSpec,
+    pub seed: u64,
+}
+
+#[derive(Clone, Debug, PartialEq, Eq, Hash, Serialize, Deserialize)]
+pub struct StreakCase {
+    pub dec: bool,
+    pub kind: Kind,
+    pub eng: Eng,
+    pub init: (usize, usize, usize),
+    pub streaks: Vec<Streak>,
+}
+
+pub fn streak_strategy(_t: Tier) -> BoxedStrategy<StreakCase> {
+    let small_cfg = || {
+        (
+            prop_oneof![6 => 1usize..=6, 2 => 1usize..=40, 1 => (0u32..=5, 0usize..3).prop_map(|(a, d)| ((1usize << a) + d).saturating_sub(1).max(1))],
+            prop_oneof![6 => 1usize..=6, 2 => 1usize..=40, 1 => (0u32..=5, 0usize..3).prop_map(|(a, d)| ((1usize << a) + d).saturating_sub(1).max(1))],
+            prop_oneof![3 => Just(2usize), 2 => Just(64), 2 => Just(66), 1 => Just(130), 1 => (1usize..=512).prop_map(|h| h * 2)],
+        )
+    };
+    let init_cfg = prop_oneof![
+        1 => small_cfg(),
+        2 => (1usize..=200, 1usize..=200, prop_oneof![Just(2usize), Just(64), Just(192), Just(2048), (1usize..=2048).prop_map(|h| h * 2)]),
+    ];
+    let n = prop_oneof![
+        3 => 0u32..=3,
+        6 => 1u32..=300,
+        4 => (4u32..=8, 0u32..5).prop_map(|(a, d)| (1u32 << a) + d - 2),
+    ];
+    let streak = (n, prop::collection::vec(small_cfg(), 1..=3), prop_oneof![3 => Just(0u8), 1 => Just(1u8), 1 => 2u8..=9], gen::recv_spec(), any::<u64>())
+        .prop_map(|(n, cfgs, round_every, recv, seed)| Streak { n, cfgs, round_every, recv, seed });
+    (any::<bool>(), gen::kind_any()).prop_flat_map(move |(dec, kind)| {
+        (any::<u8>(), init_cfg.clone(), prop::collection::vec(streak.clone(), 1..=4)).prop_map(move |(eraw, init, streaks)| {
+            let fast: Vec<Eng> = [Eng::NoSimd, Eng::Ssse3, Eng::Avx2, Eng::Default].iter().copied().filter(|e| e.available()).collect();
+            let eng = if kind == Kind::Rs { Eng::Default } else { fast[(eraw as usize * fast.len()) >> 8] };
+            StreakCase { dec, kind, eng, init, streaks }
+        })
+    })
+    .boxed()
+}
+
+fn check_streak(c: &StreakCase, st: &mut Stats) -> CheckResult {
+    run_streak(c, st, "reset_streaks", false)
+}
+
+/// `truthful`: (used by C06) every call of the real rounds is valid and complete, so it must succeed
+pub fn run_streak(c: &StreakCase, st: &mut Stats, part: &str, truthful: bool) -> CheckResult {
+    let mut cur = c.init;
+    let mut obj = Obj::make(c.dec, c.kind, c.eng, Cfg { k: cur.0, r: cur.1, b: cur.2 }).map_err(|e| format!("construction failed: {e:?}"))?;
+    let mut resets = 0u64;
+    let mut longest = 0u32;
+    let mut changed_at_end = false;
+    for s in &c.streaks {
+        let m = s.cfgs.len();
+        for i in 0..s.n {
+            // the cycle is aligned so that the last reset of the streak lands on the last entry
+            let cfg = s.cfgs[(i as usize + m - (s.n as usize % m)) % m];
+            let out = obj.apply(&Call::Reset(cfg.0, cfg.1, cfg.2))?;
+            ensure!(out.is_ok(), "reset #{resets} of the object to the supported configuration {cfg:?} failed: {}", out.brief());
+            if i + 1 == s.n && cfg != cur {
+                changed_at_end = true;
+            }
+            cur = cfg;
+            resets += 1;
+            if s.round_every > 0 && i % s.round_every as u32 == 0 {
+                let (k, _r, b) = cur;
+                let cheap = gen::DataSpec { mode: 0, seed: 1 }.expand(k, b);
+                for (j, d) in cheap.into_iter().enumerate() {
+                    let out = obj.apply(&Call::AddO(j, d))?;
+                    ensure!(out.is_ok(), "after {resets} resets: add_original({j}) rejected on {cur:?}: {}", out.brief());
+                }
+                let out = obj.apply(&Call::Finish { read: false })?;
+                ensure!(out.is_ok(), "after {resets} resets: {} failed on {cur:?}: {}", if c.dec { "decode" } else { "encode" }, out.brief());
+            }
+        }
+        longest = longest.max(s.n);
+        // the real round, on the configuration the streak ended with
+        let (k, r, b) = cur;
+        let data = gen::DataSpec { mode: (s.seed % 2) as u8 * 5, seed: s.seed }.expand(k, b);
+        let mut calls = Vec::new();
+        let mut given = Vec::new();
+        if c.dec {
+            let rec = encode_all(c.kind, c.eng, k, r, b, &data).map_err(|e| format!("encode failed: {e:?}"))?;
+            given = s.recv.arrival(k, r);
+            for g in &given {
+                calls.push(if g.rec { Call::AddR(g.idx, rec[g.idx].clone()) } else { Call::AddO(g.idx, data[g.idx].clone()) });
+            }
+        } else {
+            for (i, d) in data.iter().enumerate() {
+                calls.push(Call::AddO(i, d.clone()));
+            }
+        }
+        calls.push(Call::Finish { read: true });
+        let mut fresh = Obj::make(c.dec, c.kind, c.eng, Cfg { k, r, b }).map_err(|e| format!("construction failed: {e:?}"))?;
+        let mut last = None;
+        for call in &calls {
+            let o = obj.apply(call)?;
+            if truthful {
+                ensure!(o.is_ok(), "after {resets} resets on one {} (the last streak: {} consecutive resets) the valid call {} on {k}+{r} x {b} reports {} (family {}, engine {})",
+                    if c.dec { "decoder" } else { "encoder" }, s.n, brief(call), o.brief(), c.kind.name(), c.eng.name());
+                last = Some(o);
+                continue;
+            }
+            let of = fresh.apply(call)?;
+            if o != of {
+                fail!(
+                    "after {resets} resets on one {} (the last streak: {} consecutive resets): {} gives {} but a fresh object gives {} (family {}, engine {}, {k}+{r} x {b})",
+                    if c.dec { "decoder" } else { "encoder" }, s.n, brief(call), o.brief(), of.brief(), c.kind.name(), c.eng.name()
+                );
+            }
+            last = Some(o);
+        }
+        if let Some(Outcome::Dec(Ok(Some(m)))) = &last {
+            crate::props::c01::check_restored(k, b, &given, &data, m)?;
+        }
+    }
+    st.classf("subject", if c.dec { "decoder" } else { "encoder" });
+    st.classf("longest_streak_log2", 32 - longest.leading_zeros());
+    st.classf("geometry_changed_by_last_reset", changed_at_end);
+    if longest >= 16 {
+        st.nontrivial_case(part, c);
     }
     Ok(())
 }
